@@ -1,4 +1,6 @@
 import Restful.Driver.Routing
+import Restful.Spec.Admits
+import Restful.Spec.Params
 open Restful Restful.Driver Restful.SExp
 
 structure DState where
@@ -10,12 +12,14 @@ def handle (st : DState) (line : String) : DState × String :=
     match decCfg c with
     | some cfg => ({ st with cfg := some cfg }, "(ok)")
     | none => (st, "(bad-cfg)")
-  | some (.list [.atom "route", .atom id, r, _real]) =>
-    match st.cfg, decReq r with
-    | some cfg, some req =>
+  | some (.list [.atom "route", .atom id, r, real]) =>
+    match st.cfg, decReq r, decReal real with
+    | some cfg, some req, some real =>
       let (o, tag) := routeTagged implEnv cfg req
-      (st, s!"(out {id} {encOutcome o} (tag {tag}))")
-    | _, _ => (st, s!"(bad-req {id})")
+      let specs := specLine "WF" cfg.wfTemplates ++ specLine "C01" (Spec.c01Holds implEnv cfg req real.outcome)
+        ++ specLine "C04" (Spec.c04Holds implEnv cfg req real.outcome)
+      (st, s!"(out {id} {encOutcome o} (tag {tag}){specs})")
+    | _, _, _ => (st, s!"(bad-req {id})")
   | _ => (st, "(bad-op)")
 
 partial def loop (inp out : IO.FS.Stream) (st : DState) : IO Unit := do
